@@ -306,7 +306,7 @@ def enum_paths(cfg, start_block, stop_blocks, within=None, max_paths=2000):
         if count[0] >= max_paths:
             raise OverflowError("too many paths")
         b = cfg.blocks[bid]
-        items = items + [("ev", e) for e in b.ev]
+        items = items + [("blk", bid)] + [("ev", e) for e in b.ev]
         if bid == cfg.exit:
             count[0] += 1
             out.append((items, cfg.exit))
@@ -344,7 +344,7 @@ def paths_to(cfg, start_block, nid, max_paths=5000):
     if p is None:
         return []
     out = []
-    tail = [("ev", e) for e in cfg.blocks[p[0]].ev[:p[1]]]
+    tail = [("blk", p[0])] + [("ev", e) for e in cfg.blocks[p[0]].ev[:p[1]]]
     if start_block == p[0]:
         return [tail]
     for items, end in enum_paths(cfg, start_block, {p[0]}, max_paths=max_paths):
